@@ -14,6 +14,8 @@ import json
 import math
 import random
 
+import numpy as np
+
 from . import core, engine_run
 from .catalogue import catalogue, rows_for
 from .edl import build_engine, diff_obs, observe, share_components
@@ -21,6 +23,40 @@ from .tlc import MachineryError
 from .xreal import to_float
 
 TIE_PRONE = {"Bisector", "SmallestOfMaximum", "MeanOfMaximum", "LargestOfMaximum"}
+
+
+# the forms in which the same input values may reach the engine: the observation must not depend on them
+FORMS = ["float", "numpy-scalar", "0-d-array", "int-when-integral", "batch-of-one", "matrix-of-one-row", "read-only-0-d"]
+
+
+def set_inputs(e, xs, form):
+    if form == "matrix-of-one-row" and e.input_variables:
+        e.input_values = np.array([xs], dtype=float)
+        return
+    for iv, x in zip(e.input_variables, xs):
+        if form == "numpy-scalar":
+            iv.value = np.float64(x)
+        elif form == "0-d-array":
+            iv.value = np.array(x)
+        elif form == "read-only-0-d":
+            a = np.array(x)
+            a.setflags(write=False)
+            iv.value = a
+        elif form == "int-when-integral" and math.isfinite(x) and float(x).is_integer():
+            iv.value = int(x)
+        elif form == "batch-of-one":
+            iv.value = np.array([x])
+        else:
+            iv.value = x
+
+
+def unwrap(obs):
+    """a batch of one row is observed as lists of one element"""
+    def u(v):
+        return v[0] if isinstance(v, list) and len(v) == 1 and not isinstance(v[0], dict) else v
+    return {"out": [u(v) for v in obs["out"]], "prev": [u(v) for v in obs["prev"]],
+            "fuzzy": [[dict(a, degree=u(a["degree"])) for a in f] for f in obs["fuzzy"]],
+            "deg": [[u(d) for d in b] for b in obs["deg"]], "trig": obs["trig"]}
 
 
 def replay_case(fl, case, expected, ctx=None, pid="C01", tie_ok=None):
@@ -36,12 +72,14 @@ def replay_case(fl, case, expected, ctx=None, pid="C01", tie_ok=None):
         if exp is None:
             break
         raised = None
+        form = FORMS[(k + len(E["name"])) % len(FORMS)] if case.get("forms", True) else "float"
+        if form in ("batch-of-one", "matrix-of-one-row") and any(b["activation"]["cls"] != "General" for b in E["blocks"]):
+            form = "0-d-array"      # the six other activation methods are defined for scalar inputs only and may refuse any batch (C08)
         try:
-            for iv, x in zip(e.input_variables, row):
-                iv.value = to_float(x)
+            set_inputs(e, [to_float(x) for x in row], form)
             e.process()
         except Exception as ex:  # noqa
-            raised = f"{type(ex).__name__}: {ex}"
+            raised = f"{type(ex).__name__}: {ex} [inputs given as {form}]"
         if exp["tainted"]:
             if ctx:
                 ctx.extra["rows_skipped_irrational"] = ctx.extra.get("rows_skipped_irrational", 0) + 1
@@ -57,17 +95,18 @@ def replay_case(fl, case, expected, ctx=None, pid="C01", tie_ok=None):
             bad.append((k, f"process() raised {raised}"))
             break
         # an output whose value was accepted as a broken tie in the previous row (C09) leaves the code's own value as previous value
-        d = diff_obs(exp, observe(e), skip_prev=tied)
+        obs_now = unwrap(observe(e)) if form in ("batch-of-one", "matrix-of-one-row") else observe(e)
+        d = diff_obs(exp, obs_now, skip_prev=tied)
         now = set()
         while d and tie_ok is not None and d.startswith("output["):
             o = int(d[7:d.index("]")])
             if o in now or not tie_ok(e, o, exp):
                 break
             now.add(o)
-            d = diff_obs(exp, observe(e), skip_out=now, skip_prev=tied)
+            d = diff_obs(exp, obs_now, skip_out=now, skip_prev=tied)
         tied = frozenset(now)
         if d:
-            bad.append((k, d))
+            bad.append((k, d + (f" [inputs given as {form}]" if form != "float" else "")))
             break  # later rows of a history depend on this one
     return bad
 
